@@ -133,6 +133,14 @@ def check(case, sub="roundtrip"):
     # (1) openQASM round trip
     c2 = guarded(sub, icls, CircuitDAG.from_openqasm, q1)
     same_circuit(sub, "from_openqasm", icls, desc, c2)
+    # the first import result edited in place, the same text imported again: the second import is the text's circuit
+    if c2.n_emitters + c2.n_photons > 0:
+        import graphiq.circuit.ops as ops_
+
+        guarded(sub, icls, c2.add, ops_.Hadamard(register=0, reg_type="e" if c2.n_emitters else "p"))
+        c2b = guarded(sub, icls, CircuitDAG.from_openqasm, q1)
+        same_circuit(sub, "from_openqasm:second_import", icls, desc, c2b)
+        c2 = c2b
     # (2) JSON round trip, directly and through text
     c3 = guarded(sub, icls, CircuitDAG.from_json, j1)
     same_circuit(sub, "from_json", icls, desc, c3)
